@@ -4,6 +4,7 @@ Each post-check repairs an over-acceptance of the PEG (implicit whitespace etc.)
 the span of one grammar rule; the filter's presence and parameters are read from THIR terms, never assumed: deleting or
 weakening a check removes/changes the filter and the difference it used to hide reappears as a divergence.
 """
+import os
 import re
 from . import thir as T
 from .terms import Evaluator, Tm, subterms
@@ -38,6 +39,14 @@ TRIMS = {"trim": ("both", "unicode"), "trim_start": ("start", "unicode"), "trim_
          "trim_ascii": ("both", "ascii"), "trim_ascii_start": ("start", "ascii"), "trim_ascii_end": ("end", "ascii")}
 
 
+# std methods that produce a text with other characters than their receiver's
+REWRITES = {"replace", "replacen", "to_lowercase", "to_uppercase", "to_ascii_lowercase", "to_ascii_uppercase", "repeat",
+            "escape_default", "escape_debug", "escape_unicode", "make_ascii_lowercase", "make_ascii_uppercase", "push_str",
+            "insert_str", "insert", "remove", "retain", "truncate", "replace_range"}
+
+# lookups by position whose None means "the grammar did not deliver what it always delivers"
+STRUCTURAL_LOOKUPS = {"next", "nth", "first", "last", "get", "pop", "split_first", "split_last", "next_back", "peek"}
+
 TRIM_MATCHES = {"trim_matches": "both", "trim_start_matches": "start", "trim_end_matches": "end"}
 
 
@@ -54,6 +63,10 @@ def _trim_of(t, base, pm=None):
             if cs is not None:
                 return (TRIM_MATCHES[m], ("set", cs))
     return None
+
+
+class _NotAGate(Exception):
+    pass
 
 
 class ParserModel:
@@ -335,8 +348,32 @@ class ParserModel:
             common = set(lst[0])
             for s in lst[1:]:
                 common &= set(s)
-            out[label] = {"sites": len(lst), "steps": sorted(common)}
+            trans = sorted({x for s_ in lst for x in s_ if x.startswith("transform:")})
+            out[label] = {"sites": len(lst), "steps": sorted(x for x in common if not x.startswith("transform:")), "transforms": trans}
         return out
+
+    def _verbatim(self, t, depth=0):
+        """is the text term a (trimmed / cut / validated) part of a parameter's text, characters unchanged?"""
+        if depth > 12 or not isinstance(t, Tm):
+            return False
+        if t.k == "param":
+            return True
+        if t.k == "try":
+            return self._verbatim(t.a[0], depth + 1)
+        if t.k == "adt" and t.a[1] in ("Ok", "Some") and len(t.a[2]) == 1:
+            return self._verbatim(t.a[2][0][1], depth + 1)
+        if t.k in ("if",):
+            return self._verbatim(t.a[1], depth + 1) and self._verbatim(t.a[2], depth + 1)
+        if t.k == "match":
+            return all(self._verbatim(b, depth + 1) or (b.k == "adt" and b.a[1] in ("Err", "None")) for _, _, b in t.a[1])
+        if t.k == "index":
+            return self._verbatim(t.a[0], depth + 1)
+        if t.k == "call" and len(t.a) >= 2:
+            m = t.a[0].rsplit("::", 1)[-1]
+            if m in ("to_string", "to_owned", "as_str", "deref", "as_ref", "borrow", "clone", "into", "from", "index", "get", "unwrap_or_default",
+                     "strip_prefix", "strip_suffix", "unwrap_or", "unwrap") or m in TRIMS or m in TRIM_MATCHES or t.a[0] in self.ctrl:
+                return self._verbatim(t.a[1], depth + 1)
+        return False
 
     def steps_of(self, t, validators, fn):
         steps = []
@@ -357,6 +394,8 @@ class ParserModel:
                     steps.append("reject:" + ",".join("%d-%d" % (a, b) for a, b in rs))
             if name in validators:
                 steps.append("range[%d,%d]" % validators[name])
+            if m in REWRITES and ("<impl str>" in name or "string::String" in name or "alloc::str" in name):
+                steps.append("transform:" + m)
             if name == "core::str::<impl str>::parse":
                 ty = (x.n or {}).get("gargs") or []
                 steps.append("parse:%s" % (ty[0] if ty else "?"))
@@ -364,8 +403,150 @@ class ParserModel:
                 # helper functions such as parse_string / parse_number: look inside
                 inner = self.ev.summary(name)
                 steps.extend(self.steps_of(inner, validators, name))
+                # a text-to-text helper that is not a plain cut of its argument rewrites the text between the query and the AST
+                out_s = self.prog.items.get(name, {}).get("output_s", "") or ""
+                if re.search(r"(^|[^\w])(String|str)($|[^\w])", out_s) and self.prog.items.get(name, {}).get("kind") in ("Fn", "AssocFn") \
+                        and not name.startswith(M) and not self._verbatim(inner):
+                    steps.append("transform:" + name.rsplit("::", 1)[1])
         # bounds checks against named constants directly in the constructing function (parse_number)
         return steps
+
+    def extract_validator_sites(self, grammar):
+        """[{"fn", "validator", "where", "rules": set | None, "trims", "reject"}]: every call of a shape-recognised
+        character validator in the AST builder, with the grammar rule(s) whose span it is applied to."""
+        pt = PairTyping(self.prog, self.ev, grammar)
+        out = []
+        for p in pt.tops:
+            for sd in pt.sited(p):
+                t = sd["term"]
+                if t is not None and t.k == "call" and t.a[0] in self.ctrl and len(t.a) >= 2 and p != t.a[0]:
+                    rules, trims = pt.text_rules(t.a[1], sd["pc"], p)
+                    out.append({"fn": p, "validator": t.a[0], "where": T.loc(sd["node"]) if sd.get("node") else "-",
+                                "rules": sorted(rules) if rules is not None else None, "trims": [list(x) for x in trims],
+                                "reject": self.ctrl[t.a[0]], "arg": str(t.a[1])[:160]})
+        return out
+
+    # ---- acceptance conditions of text-taking constructors (parse_string) ------------------------------------
+    def extract_text_gates(self, grammar):
+        """Functions fn(text: &str) -> Result<_, _> of the AST builder whose result is decided by conditions on the text alone
+        (starts_with / ends_with / contains / len comparisons / is_empty, combined by && || !): the accepted texts as a
+        regular expression over the (trimmed, validated) text.  -> [{"fn", "contexts", "trims", "accept": expr}]
+        Functions whose result depends on anything else (a number parse, ...) are not gates and are skipped."""
+        from . import grammarmodel as GM
+        pt = PairTyping(self.prog, self.ev, grammar)
+        pt.validators = set(self.ctrl)
+        out = []
+        for p in pt.tops:
+            it = self.prog.items.get(p, {})
+            ins = it.get("inputs_s") or []
+            if it.get("kind") != "Fn" or len(ins) != 1 or "str" not in ins[0] or not (it.get("output_s") or "").startswith("core::result::Result<"):
+                continue
+            if p in self.ctrl:
+                continue
+            t = self.ev.summary(p)
+            try:
+                acc, trims = self._accept_lang(t, GM)
+            except _NotAGate:
+                continue
+            if acc is None:
+                continue
+            ctxs, tr2 = pt.text_contexts(Tm("param", (0, self.prog.params(p)[0]["pat"].get("name", "s"))), [], p)
+            out.append({"fn": p, "contexts": sorted(ctxs) if ctxs is not None else None, "trims": [list(x) for x in trims + tuple(x for x in tr2 if x not in trims)],
+                        "accept": acc})
+        return out
+
+    def _subject(self, s):
+        """s is the function's text parameter, possibly trimmed / validated: -> trims tuple, or raise"""
+        trims = ()
+        for _ in range(8):
+            if s.k == "try":
+                s = s.a[0]
+            elif s.k == "call" and len(s.a) >= 2 and "<impl str>" in s.a[0] and s.a[0].rsplit("::", 1)[-1] in TRIMS:
+                trims = trims + (TRIMS[s.a[0].rsplit("::", 1)[-1]],)
+                s = s.a[1]
+            elif s.k == "call" and len(s.a) >= 2 and s.a[0] in self.ctrl:
+                s = s.a[1]
+            else:
+                break
+        if s.k == "param" and s.a[0] == 0:
+            return trims
+        raise _NotAGate()
+
+    def _accept_lang(self, t, GM):
+        trims_seen = []
+
+        def bytes_le(k):
+            if k < 0:
+                return GM.cset([])
+            if k == 0:
+                return GM.eps()
+            if k > 8:
+                raise _NotAGate()
+            W = [GM.cset([[0, 0x7F]]), GM.cset([[0x80, 0x7FF]]), GM.cset([[0x800, 0xFFFF]]), GM.cset([[0x10000, 0x10FFFF]])]
+            return GM.alt(GM.eps(), *[GM.seq(W[w - 1], bytes_le(k - w)) for w in range(1, 5) if w <= k])
+
+        def lit_of(x):
+            if x.k == "lit" and x.a[0] in ("char", "str"):
+                return x.a[1]
+            raise _NotAGate()
+
+        def cond(c):
+            if c.k == "logic":
+                a, b = cond(c.a[1]), cond(c.a[2])
+                return GM.and_(a, b) if c.a[0] == "And" else GM.alt(a, b)
+            if c.k == "un" and c.a[0] == "Not":
+                return GM.not_(cond(c.a[1]))
+            if c.k == "call" and "<impl str>" in c.a[0] and len(c.a) >= 2:
+                m = c.a[0].rsplit("::", 1)[-1]
+                trims_seen.append(self._subject(c.a[1]))
+                if m == "starts_with" and len(c.a) == 3:
+                    return GM.seq(GM.lit(lit_of(c.a[2])), GM.anystar())
+                if m == "ends_with" and len(c.a) == 3:
+                    return GM.seq(GM.anystar(), GM.lit(lit_of(c.a[2])))
+                if m == "contains" and len(c.a) == 3:
+                    return GM.seq(GM.anystar(), GM.lit(lit_of(c.a[2])), GM.anystar())
+                if m == "is_empty" and len(c.a) == 2:
+                    return GM.eps()
+                raise _NotAGate()
+            if c.k == "bin" and c.a[0] in ("Gt", "Ge", "Lt", "Le", "Eq", "Ne"):
+                l, r = c.a[1], c.a[2]
+                op = c.a[0]
+                if r.k == "call" and r.a[0].endswith("<impl str>::len") and l.k == "lit":
+                    l, r = r, l
+                    op = {"Gt": "Lt", "Ge": "Le", "Lt": "Gt", "Le": "Ge"}.get(op, op)
+                if l.k == "call" and l.a[0].endswith("<impl str>::len") and len(l.a) == 2 and r.k == "lit" and r.a[0] == "int":
+                    trims_seen.append(self._subject(l.a[1]))
+                    k = int(r.a[1])
+                    if op == "Gt":
+                        return GM.not_(bytes_le(k))
+                    if op == "Ge":
+                        return GM.not_(bytes_le(k - 1))
+                    if op == "Lt":
+                        return bytes_le(k - 1)
+                    if op == "Le":
+                        return bytes_le(k)
+                    eq = GM.and_(bytes_le(k), GM.not_(bytes_le(k - 1)))
+                    return eq if op == "Eq" else GM.not_(eq)
+            raise _NotAGate()
+
+        def acc(t, depth=0):
+            if depth > 12:
+                raise _NotAGate()
+            if t.k == "adt" and t.a[1] == "Ok":
+                return GM.anystar()
+            if t.k == "adt" and t.a[1] == "Err":
+                return GM.cset([])
+            if t.k == "if":
+                c = cond(t.a[0])
+                return GM.alt(GM.and_(c, acc(t.a[1], depth + 1)), GM.and_(GM.not_(c), acc(t.a[2], depth + 1)))
+            raise _NotAGate()
+
+        a = acc(t)
+        if not trims_seen:
+            return None, ()
+        if any(x != trims_seen[0] for x in trims_seen):
+            raise _NotAGate()
+        return a, trims_seen[0]
 
     # ---- P8: comparison operators ---------------------------------------------------------------
     def extract_ops(self):
@@ -384,3 +565,342 @@ class ParserModel:
         self.notes.append("Comparison::try_new is not a match on the operator")
         return {"accepted": [], "other_accepted": True, "unknown": "Comparison::try_new does not decide by a match on the operator text: which "
                 "operator strings it accepts could not be read"}
+
+
+# ---- census of rejecting checks in the AST builder ---------------------------------------------------------
+def rejection_census(prog):
+    """Every construction of `Err` in the functions reachable from parse_json_path, classified:
+    * "fallthrough": the whole body of a catch-all arm of a dispatch on `<pair>.as_rule()` (the arm for rule kinds the
+      grammar cannot produce at this place);
+    * "check": anything else - a condition under which a text that the grammar accepted is rejected.
+    Checks are attributed to the function a reader would look for them in: closures to their function, a private helper
+    that is not in the inventory of known functions and has exactly one calling function to that caller.
+    -> (list of {"owner", "fn", "where", "kind"}, number of bodies walked)"""
+    import json as _json
+    from . import thir as T, facts as _facts
+    region, _ = prog.parser_region()
+    inv_path = os.path.join(_facts.VERIF, "spec", "inventory.json")
+    try:
+        inventory = set(_json.load(open(inv_path))["functions"])
+    except Exception:
+        inventory = None
+    bodies = sorted(p for p in region if p in prog.bodies and not prog.is_expansion(p))
+    E = prog.edges()
+    callers = {}
+    for p in bodies:
+        for callee, _site in E.get(p, []):
+            if callee in prog.bodies:
+                callers.setdefault(prog.owner_fn(callee), set()).add(prog.owner_fn(p))
+
+    def attribute(owner):
+        for _ in range(4):
+            if inventory is None or owner in inventory:
+                return owner
+            cs = {c for c in callers.get(owner, ()) if c != owner}
+            if len(cs) != 1:
+                return owner
+            owner = next(iter(cs))
+        return owner
+
+    def is_err(e):
+        e = T.strip(e)
+        if e.get("k") == "Return" and isinstance(e.get("e"), dict):
+            e = T.strip(e["e"])
+        return e if e.get("k") == "Adt" and e.get("variant") == "Err" and "Result" in (e.get("adt") or e.get("ty") or "") else None
+
+    out = []
+    for p in bodies:
+        ft_nodes = set()
+        for x in T.walk(prog.bodies[p]["thir"]["root"]):
+            if x.get("k") == "Match":
+                sc = T.peel(x["scrut"])
+                if sc.get("k") == "Call" and (sc.get("fn") or "").endswith("::as_rule"):
+                    for a in x["arms"]:
+                        pat = a["pat"]
+                        while pat.get("k") in ("Deref", "DerefPattern"):
+                            pat = pat["sub"]
+                        if "guard" not in a and (pat.get("k") == "Wild" or (pat.get("k") == "Binding" and not pat.get("sub"))):
+                            e = is_err(a["body"])
+                            if e is not None:
+                                ft_nodes.add(id(e))
+        # "a child / character that the grammar guarantees is missing": the None side of next()/nth()/first()/... written as
+        # let-else, match or if-let (the same thing as `.ok_or(err)?` on that call, which constructs no Err here at all)
+        def positional(e):
+            e = T.peel(e)
+            return e.get("k") == "Call" and (e.get("fn") or "").rsplit("::", 1)[-1] in STRUCTURAL_LOOKUPS
+
+        def errs_in(e):
+            return [id(y) for y in T.walk(e) if y.get("k") == "Adt" and y.get("variant") == "Err"]
+
+        for x in T.walk(prog.bodies[p]["thir"]["root"]):
+            k = x.get("k")
+            if k == "Block":
+                for st in x["b"]["stmts"]:
+                    if st.get("k") != "Expr" and "else" in st and "init" in st and positional(st["init"]):
+                        ft_nodes.update(errs_in({"k": "Block", "b": st["else"]}))
+            elif k == "Match" and positional(x["scrut"]):
+                for a in x["arms"]:
+                    pat = a["pat"]
+                    while pat.get("k") in ("Deref", "DerefPattern"):
+                        pat = pat["sub"]
+                    if "guard" not in a and ((pat.get("k") == "Variant" and pat.get("variant") == "None") or pat.get("k") == "Wild"):
+                        e = is_err(a["body"])
+                        if e is not None:
+                            ft_nodes.add(id(e))
+            elif k == "If" and "else" in x:
+                c = T.peel(x["cond"])
+                if c.get("k") == "Let" and positional(c["e"]):
+                    e = is_err(x["else"])
+                    if e is not None:
+                        ft_nodes.add(id(e))
+        for x in T.walk(prog.bodies[p]["thir"]["root"]):
+            if x.get("k") == "Adt" and x.get("variant") == "Err" and "Result" in (x.get("adt") or x.get("ty") or ""):
+                out.append({"fn": p, "owner": attribute(prog.owner_fn(p)), "where": T.loc(x),
+                            "kind": "fallthrough" if id(x) in ft_nodes else "check"})
+    return out, len(bodies)
+
+
+# ---- which grammar rule's text does a validator see? ---------------------------------------------------------
+def grammar_children(grammar):
+    """rule -> (set of rules that can be direct child pairs, set of rules that can be the FIRST child pair).
+    Silent rules are looked through; an atomic rule (`@`) produces no inner pairs."""
+    rules = grammar.rules
+
+    def pairs(e, first, stack):
+        k = e["k"]
+        if k == "ident":
+            n = e["v"]
+            if n not in rules:
+                return set(), True
+            if rules[n]["ty"] == "silent":
+                if n in stack:
+                    return set(), True
+                return pairs(rules[n]["expr"], first, stack | {n})
+            return {n}, False
+        if k == "seq":
+            a, na = pairs(e["a"], first, stack)
+            if first and not na:
+                return a, False
+            b, nb = pairs(e["b"], first, stack)
+            return a | b, na and nb
+        if k == "choice":
+            a, na = pairs(e["a"], first, stack)
+            b, nb = pairs(e["b"], first, stack)
+            return a | b, na or nb
+        if k in ("opt", "rep"):
+            return pairs(e["e"], first, stack)[0], True
+        if k == "rep1":
+            return pairs(e["e"], first, stack)
+        if k == "repn":
+            s, n = pairs(e["e"], first, stack)
+            return s, n or e.get("min", 0) == 0
+        if k == "push":
+            return pairs(e["e"], first, stack)
+        return set(), True
+
+    out = {}
+    for n, r in rules.items():
+        if r["ty"] == "atomic":
+            out[n] = (set(), set())
+        else:
+            out[n] = (pairs(r["expr"], False, {n})[0], pairs(r["expr"], True, {n})[0])
+    return out
+
+
+class PairTyping:
+    """Abstract interpretation of the pest `Pair` values of the AST builder: the set of grammar rules a pair term can
+    be an instance of, from (1) the arm of a dispatch on `.as_rule()` it is used under, (2) its position in the parent
+    (`into_inner()` item / first child) and (3) for parameters, the union over the call sites."""
+
+    def __init__(self, prog, ev, grammar):
+        self.prog, self.ev, self.grammar = prog, ev, grammar
+        self.kids = grammar_children(grammar)
+        region, _ = prog.parser_region()
+        self.tops = sorted(p for p in region if "::{closure#" not in p and p in prog.bodies and not prog.is_expansion(p))
+        self._sited = {}
+
+    def sited(self, p):
+        if p not in self._sited:
+            try:
+                self._sited[p] = self.ev.sited(p)
+            except Exception:
+                self._sited[p] = []
+        return self._sited[p]
+
+    def call_sites(self, f):
+        out = []
+        for p in self.tops:
+            for s in self.sited(p):
+                t = s["term"]
+                if t is not None and t.k == "call" and t.a[0] == f:
+                    out.append((p, t, s["pc"]))
+        return out
+
+    def _arm_rule(self, x, pc):
+        got = None
+        for c in pc:
+            if c[0] == "arm" and c[1].k == "call" and c[1].a[0].endswith("::as_rule") and len(c[1].a) == 2 and c[1].a[1] == x:
+                pat = c[2]
+                while pat.get("k") in ("Deref", "DerefPattern"):
+                    pat = pat["sub"]
+                if pat.get("k") == "Variant":
+                    got = {pat["variant"]}
+        return got
+
+    def pair_rules(self, x, pc, fn, depth=0):
+        """set of rule names or None (unknown)"""
+        if depth > 30 or not isinstance(x, Tm):
+            return None
+        by_arm = self._arm_rule(x, pc)
+        if by_arm is not None:
+            return by_arm
+        st = self.structural(x, pc, fn, depth)
+        return st
+
+    def structural(self, x, pc, fn, depth):
+        if x.k == "try":
+            return self.pair_rules(x.a[0], pc, fn, depth + 1)
+        if x.k == "proj" and str(x.a[1]).split(".")[0] in ("Option::Some", "Result::Ok"):
+            return self.pair_rules(x.a[0], pc, fn, depth + 1)
+        if x.k == "call":
+            name = x.a[0]
+            m = name.rsplit("::", 1)[-1]
+            if name == "<item>" and len(x.a) == 2:
+                src = x.a[1]
+                if src.k == "call" and src.a[0].endswith("::into_inner") and len(src.a) == 2:
+                    par = self.pair_rules(src.a[1], pc, fn, depth + 1)
+                    if par is None:
+                        return None
+                    out = set()
+                    for r in par:
+                        out |= self.kids.get(r, (set(), set()))[0]
+                    return out
+                return None
+            if m in ("ok_or", "ok_or_else") and name.startswith("core::option::Option"):
+                return self.pair_rules(x.a[1], pc, fn, depth + 1)
+            if m == "next" and len(x.a) == 2:
+                src = x.a[1]
+                if src.k == "call" and src.a[0].endswith("::into_inner") and len(src.a) == 2:
+                    par = self.pair_rules(src.a[1], pc, fn, depth + 1)
+                    if par is None:
+                        return None
+                    out = set()
+                    for r in par:
+                        out |= self.kids.get(r, (set(), set()))[1]
+                    return out
+                return None
+            if m == "clone" and len(x.a) == 2:
+                return self.pair_rules(x.a[1], pc, fn, depth + 1)
+            if name in self.prog.bodies and self.prog.items.get(name, {}).get("kind") in ("Fn", "AssocFn"):
+                inner = self.ev.apply(Tm("fnitem", (name,)), list(x.a[1:]))
+                if inner is not None and not (inner.k == "call" and inner.a[0] == name):
+                    return self.pair_rules(inner, pc, fn, depth + 1)
+            return None
+        if x.k == "param":
+            out = set()
+            sites = self.call_sites(fn)
+            if not sites:
+                return None
+            for caller, t, cpc in sites:
+                i = x.a[0] + 1
+                if i >= len(t.a):
+                    return None
+                r = self.pair_rules(t.a[i], cpc, caller, depth + 1)
+                if r is None:
+                    return None
+                out |= r
+            return out
+        return None
+
+    def parent_rules(self, x, pc, fn, depth=0):
+        """rules of the pair whose child `x` is (None when not derivable from the term's structure)"""
+        for _ in range(6):
+            if x.k == "try" or (x.k == "proj" and str(x.a[1]).split(".")[0] in ("Option::Some", "Result::Ok")):
+                x = x.a[0]
+            elif x.k == "call" and x.a[0].rsplit("::", 1)[-1] in ("ok_or", "ok_or_else", "clone") and len(x.a) >= 2:
+                x = x.a[1]
+            else:
+                break
+        if x.k == "call" and x.a[0] in self.prog.bodies and self.prog.items.get(x.a[0], {}).get("kind") in ("Fn", "AssocFn"):
+            inner = self.ev.apply(Tm("fnitem", (x.a[0],)), list(x.a[1:]))
+            if inner is not None and not (inner.k == "call" and inner.a[0] == x.a[0]) and depth < 4:
+                return self.parent_rules(inner, pc, fn, depth + 1)
+            return None
+        if x.k == "call" and len(x.a) == 2 and (x.a[0] == "<item>" or x.a[0].rsplit("::", 1)[-1] == "next"):
+            src = x.a[1]
+            if src.k == "call" and src.a[0].endswith("::into_inner") and len(src.a) == 2:
+                return self.pair_rules(src.a[1], pc, fn, 1)
+        return None
+
+    def text_contexts(self, t, pc, fn, depth=0):
+        """like text_rules, with the parent rule where the term's structure shows it: -> (set of (parent, rule) / (rule,) | None, trims)"""
+        trims = ()
+        for _ in range(8):
+            if t.k == "call" and "<impl str>" in t.a[0] and t.a[0].rsplit("::", 1)[-1] in TRIMS and len(t.a) >= 2:
+                trims = trims + (TRIMS[t.a[0].rsplit("::", 1)[-1]],)
+                t = t.a[1]
+            elif t.k == "try":
+                t = t.a[0]
+            elif t.k == "call" and t.a[0] in getattr(self, "validators", ()) and len(t.a) >= 2:
+                t = t.a[1]
+            else:
+                break
+        if t.k == "call" and t.a[0].endswith("::as_str") and "Pair" in t.a[0] and len(t.a) == 2:
+            names = self.pair_rules(t.a[1], pc, fn, 1)
+            if names is None:
+                return None, trims
+            par = self.parent_rules(t.a[1], pc, fn)
+            out = set()
+            for n in names:
+                ps = [p for p in (par or ()) if n in self.kids.get(p, (set(), set()))[0]]
+                if ps:
+                    out |= {(p, n) for p in ps}
+                else:
+                    out.add((n,))
+            return out, trims
+        if t.k == "param" and depth < 24:
+            out = set()
+            sites = self.call_sites(fn)
+            if not sites:
+                return None, trims
+            for caller, ct, cpc in sites:
+                i = t.a[0] + 1
+                if i >= len(ct.a):
+                    return None, trims
+                r, tr = self.text_contexts(ct.a[i], cpc, caller, depth + 1)
+                if r is None:
+                    return None, trims
+                trims = trims + tuple(x for x in tr if x not in trims)
+                out |= r
+            return out, trims
+        return None, trims
+
+    def text_rules(self, t, pc, fn, depth=0):
+        """rules whose span the &str term `t` is (a part of); trims are looked through.  -> (set | None, ((side, charset), ..))"""
+        trimmed = ()
+        for _ in range(8):
+            if t.k == "call" and "<impl str>" in t.a[0] and t.a[0].rsplit("::", 1)[-1] in TRIMS and len(t.a) >= 2:
+                trimmed = trimmed + (TRIMS[t.a[0].rsplit("::", 1)[-1]],)
+                t = t.a[1]
+            elif t.k == "try":
+                t = t.a[0]
+            else:
+                break
+        if t.k == "call" and t.a[0].endswith("::as_str") and "Pair" in t.a[0] and len(t.a) == 2:
+            return self.pair_rules(t.a[1], pc, fn, depth + 1), trimmed
+        if t.k == "param" and depth < 24:
+            out = set()
+            sites = self.call_sites(fn)
+            if not sites:
+                return None, trimmed
+            for caller, ct, cpc in sites:
+                i = t.a[0] + 1
+                if i >= len(ct.a):
+                    return None, trimmed
+                r, tr = self.text_rules(ct.a[i], cpc, caller, depth + 1)
+                if r is None:
+                    return None, trimmed
+                trimmed = trimmed + tuple(x for x in tr if x not in trimmed)
+                out |= r
+            return out, trimmed
+        return None, trimmed
